@@ -27,8 +27,26 @@ func (io defaultFileIO) ReadFile(path string) ([]byte, error) {
 	return ioutil.ReadFile(path)
 }
 
+// escapeGlobMeta escapes the characters that filepath.Glob would
+// otherwise interpret, so that s matches only itself.
+func escapeGlobMeta(s string) string {
+	if filepath.Separator == '\\' {
+		// Escaping is not supported on Windows.
+		return s
+	}
+	var escaped []byte
+	for i := 0; i < len(s); i++ {
+		switch s[i] {
+		case '*', '?', '[', '\\':
+			escaped = append(escaped, '\\')
+		}
+		escaped = append(escaped, s[i])
+	}
+	return string(escaped)
+}
+
 func (io defaultFileIO) FindWithPrefixAndSuffix(prefix, suffix string) ([]string, error) {
-	return filepath.Glob(prefix + "*" + suffix)
+	return filepath.Glob(escapeGlobMeta(prefix) + "*" + escapeGlobMeta(suffix))
 }
 
 func (io defaultFileIO) WriteFile(path string, data []byte) error {
